@@ -923,11 +923,15 @@ impl Xot {
         if let Some(previous_node) = previous_node {
             self.insert_after(previous_node, replacing_node)?;
             // if the replacing text was merged into the previous text node, that
-            // node may now be next to the text node that followed the replaced node
-            self.remove_consolidate_text_nodes(
-                Some(previous_node),
-                self.next_sibling(previous_node),
-            );
+            // node may now be next to the text node that followed the replaced node.
+            // (the previous node itself is gone if moving the replacing node away made
+            // it merge with the text node before it; then there is nothing left to do)
+            if !self.is_removed(previous_node) {
+                self.remove_consolidate_text_nodes(
+                    Some(previous_node),
+                    self.next_sibling(previous_node),
+                );
+            }
         } else {
             self.prepend(parent, replacing_node)?;
         }
